@@ -1,6 +1,7 @@
 /- driver protocol for Model/Formats.lean (C01) -/
 import MdVerif.Model.Formats
 import MdVerif.Model.TextFmt
+import MdVerif.Model.Xdr
 import MdVerif.Driver.Mic
 namespace MdVerif.Driver.FmtP
 open MdVerif.Mic MdVerif.Fmt MdVerif.Txt MdVerif.Driver.MicP
@@ -56,7 +57,29 @@ def handleTxt : List String → String
   | ["txtparse", "mdcrd", block] => showRats (mdcrdParse ((block.splitOn "|").map dec))
   | _ => "bad-op"
 
+def hexNib (c : Char) : Option Nat :=
+  if '0' ≤ c ∧ c ≤ '9' then some (c.toNat - '0'.toNat)
+  else if 'a' ≤ c ∧ c ≤ 'f' then some (c.toNat - 'a'.toNat + 10) else none
+
+def hexBytes : List Char → Option (List Nat)
+  | [] => some []
+  | a :: b :: r => do let x ← hexNib a; let y ← hexNib b; let rest ← hexBytes r; pure ((x * 16 + y) :: rest)
+  | _ => none
+
+def showF32 (w : Nat) : String := match MdVerif.Xdr.f32ToRat w with | some q => showRat q | none => "nonfinite"
+
+/-- `trr <hex of the file>`: the frames the byte-level model reads: natoms step time lambda B box… X coordinates…, frames separated by ";" -/
+def handleTrr (hex : String) : String :=
+  match hexBytes hex.toList with
+  | none => "bad-op"
+  | some bytes =>
+    match MdVerif.Xdr.readTrr bytes with
+    | none => "unreadable"
+    | some fs => "ok " ++ ";".intercalate (fs.map (fun f =>
+        s!"{f.natoms} {f.step} {showF32 f.time} {showF32 f.lambda} B {" ".intercalate (f.box.map showF32)} X {" ".intercalate (f.x.map showF32)}"))
+
 def handleFmt : List String → String
+  | ["trr", hex] => handleTrr hex
   -- fmtq <format> <gro precision> <n atoms> <values in nm …>: stored (native) and loaded (nm) value of each, and the tie margin of the rounding
   | "fmtq" :: fs :: gs :: ns :: rest =>
     match parseF fs, gs.toNat?, ns.toNat?, rest.mapM parseRat with
